@@ -80,7 +80,7 @@ def kv(cmd, jobs, flavor="rc", per_job_timeout=20.0, tag=None, extra_env=None):
         import selectors
         sel = selectors.DefaultSelector()
         sel.register(p.stdout, selectors.EVENT_READ)
-        buf = ""
+        buf = b""
         last = time.time()
         dead = False
         fd = p.stdout.fileno()
@@ -96,12 +96,12 @@ def kv(cmd, jobs, flavor="rc", per_job_timeout=20.0, tag=None, extra_env=None):
                     break
                 if chunk:
                     last = time.time()
-                    buf += chunk.decode("utf-8", "replace")
-                    while "\n" in buf:
-                        line, buf = buf.split("\n", 1)
+                    buf += chunk                  # bytes: a chunk may end inside a multi-byte character
+                    while b"\n" in buf:
+                        line, buf = buf.split(b"\n", 1)
                         if not line.strip():
                             continue
-                        o = json.loads(line)
+                        o = json.loads(line.decode("utf-8", "replace"))
                         if "begin" in o and len(o) == 1:
                             current = o["begin"]
                         else:
